@@ -173,6 +173,10 @@ class ImmutableKnotVector(tuple):
         return True
 
     def span(self, nodes: Union[float, Tuple[float]]) -> Union[int, Tuple[int]]:
+        try:
+            nodes = tuple(nodes)  # A one-pass iterable is walked only here
+        except TypeError:
+            pass
         if not self.valid(nodes):
             raise ValueError
         try:
@@ -181,6 +185,10 @@ class ImmutableKnotVector(tuple):
             return self.__span_single(nodes)
 
     def mult(self, nodes: Union[float, Tuple[float]]) -> Union[int, Tuple[int]]:
+        try:
+            nodes = tuple(nodes)  # A one-pass iterable is walked only here
+        except TypeError:
+            pass
         if not self.valid(nodes):
             raise ValueError
         try:
@@ -216,6 +224,7 @@ class ImmutableKnotVector(tuple):
              [0.25, 0.25, 0.5, 0.75, 0.75],
              [0.75, 0.75, 1, 1]]
         """
+        nodes = tuple(nodes)  # A one-pass iterable is walked only here
         if not self.valid(nodes):
             raise ValueError
         nodes = set(nodes)
